@@ -17,7 +17,8 @@ _baseline = {}
 def baseline(check):
     """violation signatures the check reports on the clean tree (should be none): a mutant only counts as caught for new ones"""
     if check not in _baseline:
-        r = subprocess.run([os.path.join(VERIF, "check"), check], env=dict(os.environ, VERIF_NO_EVIDENCE="1"), capture_output=True, text=True)
+        r = subprocess.run([os.path.join(VERIF, "check"), check] + (["--seed", os.environ["MATRIX_SEED"]] if os.environ.get("MATRIX_SEED") else []),
+                           env=dict(os.environ, VERIF_NO_EVIDENCE="1"), capture_output=True, text=True)
         sigs = set(re.findall(r"^  clause=\S+ signature=(\S+)", r.stdout, re.M))
         if sigs:
             print("WARNING: %s is red on the clean tree: %s" % (check, sorted(sigs)), flush=True)
@@ -34,14 +35,18 @@ def main():
             continue
         prop = name.split("-")[0]
         checks = [prop] + EXTRA.get(name, [])
-        r = subprocess.run([os.path.join(VERIF, "tools", "mutate.py"), os.path.join(d, "patch.diff")] + checks,
-                           capture_output=True, text=True)
+        seed = os.environ.get("MATRIX_SEED")
+        r = subprocess.run([os.path.join(VERIF, "tools", "mutate.py"), os.path.join(d, "patch.diff")] + checks +
+                           (["--", "--seed", seed] if seed else []), capture_output=True, text=True)
         verdicts = dict(re.findall(r"^(C\d+) (CAUGHT|MISSED|ERROR\S*)", r.stdout, re.M))
         sigs = re.findall(r"signature=(\S+)", r.stdout)
         for c in checks:
             if verdicts.get(c) == "CAUGHT" and baseline(c) and not (set(sigs) - baseline(c)):
                 verdicts[c] = "MISSED"          # only signatures that the clean tree shows as well
         sigs = [x for x in sigs if not any(x in baseline(c) for c in checks if c in _baseline)]
+        if os.environ.get("MATRIX_SEED"):
+            print(name, verdicts, flush=True)
+            continue            # exploratory run under another seed: do not touch the recorded verdicts
         meta = json.load(open(os.path.join(d, "meta.json")))
         meta["caught_by"] = sorted(c for c, v in verdicts.items() if v == "CAUGHT")
         meta["missed_by"] = sorted(c for c, v in verdicts.items() if v != "CAUGHT")
@@ -50,7 +55,7 @@ def main():
         json.dump(meta, open(os.path.join(d, "meta.json"), "w"), indent=1)
         rows.append((name, meta.get("summary", "")[:110].replace("\n", " "), verdicts, meta["signatures"][:2]))
         print(name, verdicts, flush=True)
-    if not only:
+    if not only and not os.environ.get("MATRIX_SEED"):
         with open(os.path.join(VERIF, "seeded", "RESULTS.md"), "w") as f:
             f.write("# Seeded changes vs. checks (quick tier)\n\n| change | what it does | verdicts | first signatures |\n|---|---|---|---|\n")
             for name, summ, v, sg in rows:
